@@ -26,10 +26,15 @@ from ..explore import Res, Stats
 
 ID = "C06"
 LEVEL = "model_checking"
-RULE = ("states = (configuration, set of calls already served by the process); transitions = one tool/API call; every transition's "
-        "result is compared byte-for-byte (timestamps masked) with the reference run of the same call alone in a fresh process. "
-        "(a) |seeds| x |cwds| x |locales| fresh workers x |K| calls; (b) all ordered pairs over K'; (c) all ready-handle orders of "
-        "concurrently scheduled tool tasks.")
+RULE = ("states = (configuration, calls already served by the process, current text of the named schema); transitions = one tool/API "
+        "call (for the thread sub-check: one scheduling point); every call's result is compared byte-for-byte (timestamps masked) "
+        "with the reference run of the same call alone in a fresh process. (a) |seeds| x |cwds| x |locales| fresh workers x |K| calls; "
+        "(b) all ordered pairs over K' (every kind of call on 8 documents chosen to collide: bool/float/int atoms, routed holographic "
+        "and literal-zone values, colliding field names); (b2) for every call naming the generated schema: call | edit schema text | "
+        "call | edit back | call against fresh processes that only saw that text; (c) all ready-handle orders of concurrently "
+        "scheduled tool tasks; (d) all schedules with <= p preemptions of two threads over six workload pairs (quick: p=1 at "
+        "call/return granularity; thorough: p=1 at line granularity + p=2 at call granularity). non-trivial = a schedule whose "
+        "switch points were all reached / a call that returned a result; distinct = distinct (pair, schedule) or call results.")
 ASSUMPTIONS = [
     "timestamps are masked by key name (timestamp, HYDRATION_TIME); temp-dir prefixes of the worker are masked",
     "cwd '/' is compared only for calls that name no generated schema (there the named schema's text differs by design)",
